@@ -58,6 +58,8 @@ def render_prog(inp):
         if st["t"] in ("a", "b"):
             _, path = url_and_path(st["t"], st["sp"])
             files[path] = lib_file(st["t"])
+        elif st["t"] == "w":
+            files["w.scss"] = '@forward "sass:math";\n'
         elif st["t"] == "m":
             files["m.scss"] = "\n".join(stmt_text(s) for s in inp["m"]) + "\n$o: mo;\n"
     files["r.scss"] = "\n".join(stmt_text(s) for s in inp["r"]) + "\n" + access_text(inp["acc"]) + "\n"
@@ -72,7 +74,8 @@ class C37(VectorEngine):
     rule = ("Module graphs built by MC_Modules.tla: root load statements (@use of library files a/b, the middle file m, sass:math; URL spellings "
             "a/_a/a.scss/d/a; namespace default/`as n`/`as *`; `with` configurations of the !default variable, the plain variable, an unknown one, "
             "duplicates), the middle file's statements (@use, @forward with show/hide lists, `as p-*`, `with`), and one access (ns.$v, ns.f(), "
-            "@include ns.m, bare, prefixed names, assignment to a built-in variable); bounded by total feature weight. non-trivial = the access "
+            "@include ns.m, bare, prefixed names, assignment to a built-in variable directly, after `as *`, and through @forward chains ending in sass:math "
+            "- plain, `as p-*`, show/hide, two levels deep); bounded by total feature weight. non-trivial = the access "
             "reaches for a member that some loaded module declares or the program carries a configuration; distinct = distinct program. "
             "Flow B: seeded random graphs with more statements and features validated by Trace_Modules.tla.")
     assumptions = ["the observable is the value of one declaration (token list) or error presence; error messages are not compared",
@@ -81,14 +84,16 @@ class C37(VectorEngine):
                    "library members are fixed: $d !default, $p, f() returning `<x>f $d`, mixin m emitting `<x>m $p`"]
     mc_runs = {
         "quick": [("MC_Modules", "MC_Modules_C37_a.cfg", {"workers": 4}), ("MC_Modules", "MC_Modules_C37_b.cfg", {"workers": 4}),
-                  ("MC_Modules", "MC_Modules_C37_c.cfg", {"workers": 4})],
+                  ("MC_Modules", "MC_Modules_C37_c.cfg", {"workers": 4}), ("MC_Modules", "MC_Modules_C37_d.cfg", {"workers": 4})],
         "thorough": [("MC_Modules", "MC_Modules_C37_ta.cfg", {"workers": 4, "timeout": 1500}),
-                     ("MC_Modules", "MC_Modules_C37_tb.cfg", {"workers": 4, "timeout": 1500})],
+                     ("MC_Modules", "MC_Modules_C37_tb.cfg", {"workers": 4, "timeout": 1500}),
+                     ("MC_Modules", "MC_Modules_C37_td.cfg", {"workers": 4, "timeout": 1500})],
     }
     random_n = {"quick": 1500, "thorough": 20000}
 
     # with a deviation switched on TLC must find the property's laws violated in the model
-    neg_cfgs = [("MC_Modules_negA.cfg", "InvConfigOnlyDefault", "with_unchecked"), ("MC_Modules_negF.cfg", "InvFilterExact", "fwd_prefix_filter_swapped")]
+    neg_cfgs = [("MC_Modules_negA.cfg", "InvConfigOnlyDefault", "with_unchecked"), ("MC_Modules_negF.cfg", "InvFilterExact", "fwd_prefix_filter_swapped"),
+                ("MC_Modules_negB.cfg", "InvBuiltin", "builtin_marker_lost_in_forward")]
 
     def run(self, ctx):
         from vlib import tlc
@@ -97,7 +102,7 @@ class C37(VectorEngine):
             if not (r["violated"] and inv in r["out"]):
                 raise tlc.ToolError(f"{cfg}: law {inv} does not detect the deviation {dev} (vacuous law)")
         ctx.exhaustive = None
-        ctx.notes.append("laws violated in the model under the deviations with_unchecked / fwd_prefix_filter_swapped (MC_Modules_negA/negF.cfg): "
+        ctx.notes.append("laws violated in the model under the deviations with_unchecked / fwd_prefix_filter_swapped / builtin_marker_lost_in_forward (MC_Modules_negA/negF/negB.cfg): "
                          "these deviations are violations of the property, not modelling artefacts")
         super().run(ctx)
 
@@ -187,7 +192,16 @@ class C37(VectorEngine):
                     m.append(fwd("a") if rng.random() < 0.8 else {"k": "use", "t": "a", "sp": "plain", "as": "def", "cfg": cfg()})
                 if len(m) == 2 and any(s["cfg"] for s in m):
                     m = m[:1]
-            if rng.random() < 0.06:
+            if rng.random() < 0.25:
+                # forward chains that end in a built-in module, then an assignment / read through the user module
+                m = [fwd(rng.choice(["math", "w"]))]
+                m[0]["cfg"] = []
+                if m[0]["vis"] != "all":
+                    m[0]["list"] = [{"c": "var", "pre": rng.choice([0, 1]), "n": rng.choice(["pi", "pi", "e"])} for _ in range(rng.choice([1, 2]))]
+                r = [{"k": "use", "t": rng.choice(["m", "m", "w"]), "sp": "plain", "as": rng.choice(["def", "n", "star"]), "cfg": []}]
+                ns = "" if r[0]["as"] == "star" else ("n" if r[0]["as"] == "n" else r[0]["t"])
+                acc = {"k": rng.choice(["set", "set", "get"]), "ns": rng.choice([ns, ns, "math"]), "kind": "var", "pre": rng.choice([0, 0, 1]), "n": "pi"}
+            elif rng.random() < 0.06:
                 acc = {"k": "set", "ns": rng.choice(["math", "n"]), "kind": "var", "pre": 0, "n": "pi"}
             else:
                 kn = rng.choice([("var", "d"), ("var", "p"), ("var", "o"), ("var", "q"), ("var", "pi"), ("fn", "f"), ("mix", "m")])
